@@ -4,17 +4,17 @@ tie   : micro-correspondence - the real momo mechanisms on kit elements vs the e
 oracle: the real containers, every operation documented as strongly safe, every failure point by replay of the prefix"""
 import os, re
 
-PARTS = {1: ['array', 'array_ic4', 'segarray'],
-         2: ['hset_limp4', 'hset_open8', 'hset_limp'],
+PARTS = {1: ['array', 'array_ic4', 'segarray', 'array_triv'],
+         2: ['hset_limp4', 'hset_open8', 'hset_limp', 'hset_limp4_nv'],
          3: ['hmap_limp4', 'hmap_limp4_xc'],
          6: ['hmap_open8'],
-         8: ['hmmap'],
-         4: ['tset_n4', 'tset_n4i', 'tset_n32'],
+         8: ['hmmap', 'hmmap_k3'],
+         4: ['tset_n4', 'tset_n4i', 'tset_n32', 'tset_n4_nv'],
          5: ['tmap_n4', 'tmap_n4_xc'],
          7: ['tmap_n32'],
-         9: ['hset_openn1_1', 'hset_openn1_3', 'hset_openn1_7', 'hset_open8r']}
-NOPS = {'hset_openn1_1': 38, 'hset_openn1_3': 38, 'hset_openn1_7': 40, 'hset_open8r': 40, 'hmap_limp4_xc': 38, 'tmap_n4_xc': 36, 'array': 28, 'array_ic4': 28, 'segarray': 40, 'hset_limp4': 40, 'hset_open8': 40, 'hset_limp': 40, 'hmap_limp4': 38,
-        'hmap_open8': 38, 'hmmap': 30, 'tset_n4': 40, 'tset_n4i': 40, 'tset_n32': 70, 'tmap_n4': 36, 'tmap_n32': 70}
+         9: ['hset_openn1_1', 'hset_openn1_3', 'hset_openn1_7', 'hset_open8r', 'hmap_open8r']}
+NOPS = {'array_triv': 30, 'hset_limp4_nv': 40, 'tset_n4_nv': 44, 'hmmap_k3': 40, 'hmap_open8r': 38, 'hset_openn1_1': 38, 'hset_openn1_3': 38, 'hset_openn1_7': 40, 'hset_open8r': 40, 'hmap_limp4_xc': 38, 'tmap_n4_xc': 42, 'array': 28, 'array_ic4': 28, 'segarray': 40, 'hset_limp4': 40, 'hset_open8': 40, 'hset_limp': 40, 'hmap_limp4': 38,
+        'hmap_open8': 38, 'hmmap': 30, 'tset_n4': 44, 'tset_n4i': 44, 'tset_n32': 70, 'tmap_n4': 42, 'tmap_n32': 70}
 # no known findings on the current tree.  (Until b307610 the *_xc configurations - momo's DEFAULT extraCheckMode = assertion - aborted
 # when a functor threw inside the post-insertion self check pvExtraCheck; now they are plain positive tests: the operation completes.)
 KNOWN_KEYS = []
@@ -72,13 +72,13 @@ def oracle_cases(ctx, scale):
     r = ctx.rng
     out = []
     mode = 'q' if ctx.quick() and scale == 1 else 't'
-    per = 5 * scale if ctx.quick() else 24
+    per = 4 * scale if ctx.quick() else 24
     for part, cfgs in PARTS.items():
         for cfg in cfgs:
-            cats = 'NCTXY' if cfg in ('hmap_limp4', 'hmap_open8', 'hmmap', 'tmap_n4', 'tmap_n32') else 'NCT'
+            cats = 'NCTXY' if cfg in ('hmap_limp4', 'hmap_open8', 'hmmap', 'hmmap_k3', 'tmap_n4', 'tmap_n32') else ('R' if cfg == 'array_triv' else 'NCT')
             for c in cats:
                 for i in range(per):
-                    nops = NOPS[cfg] if (i % 3 or cfg.startswith('h')) else max(6, NOPS[cfg] // 2)
+                    nops = NOPS[cfg] if (i % 3 or cfg.startswith('h') or cfg.startswith('t')) else max(6, NOPS[cfg] // 2)
                     out.append((part, '%s %s %s %d %d' % (cfg, c, mode, r.below(10 ** 9), nops)))
     return out
 
@@ -111,6 +111,14 @@ def classify(cfg, line):
     return None
 
 
+DIST = {}; OPS = {}; MICRO = {}
+DISTNAME = {0: 'IDENT', 1: 'CONST', 2: 'LOWBITS', 3: 'HIGHBITS', 4: 'MULT', 5: 'MOD7'}
+OPNAME = {0: 'add/insert(const&)', 1: 'add/insert(&&)', 2: 'remove(key)/RemoveBack', 3: 'extract', 4: 'reserve', 5: 'shrink', 6: 'SetCount(n)',
+          7: 'SetCount(n,item)', 8: 'copy-construct', 9: 'copy-assign', 10: 'aux-insert', 11: 'clear', 12: 'operator[]', 13: 'RemoveKey',
+          14: 'AddVar/InsertVar', 15: 'extract+Insert(ExtractedItem&&)', 16: 'ctor(count,item)', 17: 'ctor(begin,end)', 18: 'ctor(initializer_list)',
+          19: 'Add(position,item)', 20: 'Remove(position)', 21: 'Add(keyIter,value)', 22: 'RemoveValues'}
+
+
 def oracle(ctx, exes, cases):
     tot = {'histories': 0, 'ops': 0, 'points': 0, 'thrown': 0, 'nontrivial_ops': 0, 'swallowed': 0, 'resource_changed': 0}
     per_cfg = {}
@@ -130,6 +138,18 @@ def oracle(ctx, exes, cases):
             m = re.match(r'ok ops=(\d+) points=(\d+) thrown=(\d+) nontrivial=(\d+) swallowed=(\d+) reschg=(\d+)', out)
             if m:
                 o, p, t, n, s, rc_ = map(int, m.groups())
+                m2 = re.search(r'fk=(\d+)/(\d+)/(\d+) maxcount=(\d+) dist=(\d+) opk=(\S*)', out)
+                if m2:
+                    dd = DIST.setdefault(cfg, {'exceptions_alloc': 0, 'exceptions_copy': 0, 'exceptions_functor': 0, 'max_count_at_failure': 0,
+                                                'swallowed_failures': 0, 'hash_distributions': {}, 'categories': {}})
+                    dd['exceptions_alloc'] += int(m2.group(1)); dd['exceptions_copy'] += int(m2.group(2)); dd['exceptions_functor'] += int(m2.group(3))
+                    dd['max_count_at_failure'] = max(dd['max_count_at_failure'], int(m2.group(4))); dd['swallowed_failures'] += s
+                    dn = DISTNAME.get(int(m2.group(5)), '?'); dd['hash_distributions'][dn] = dd['hash_distributions'].get(dn, 0) + 1
+                    cat = line.split()[1]; dd['categories'][cat] = dd['categories'].get(cat, 0) + 1
+                    for tok in m2.group(6).split(','):
+                        if tok:
+                            k, a, b = tok.split(':'); nm = OPNAME.get(int(k), k)
+                            e = OPS.setdefault(nm, [0, 0]); e[0] += int(a); e[1] += int(b)
                 tot['ops'] += o; tot['points'] += p; tot['thrown'] += t; tot['nontrivial_ops'] += n; tot['swallowed'] += s
                 tot['resource_changed'] += rc_
                 d = per_cfg.setdefault(cfg + '/' + line.split()[1], [0, 0, 0]); d[0] += 1; d[1] += p; d[2] += n
@@ -228,6 +248,8 @@ def run(ctx):
     have_model = ctx.stages.get('prove', {}).get('ok') and ctx.extract()
     if have_model and micro:
         cases = micro_cases(ctx)
+        for c_ in cases:
+            MICRO[c_.split()[0]] = MICRO.get(c_.split()[0], 0) + 1
         mism, _ = ctx.correspond('micro', cases, [micro], [ctx.model_exe])
         ctx.tie_obligations.append({'name': 'event traces + final cells of the model == real momo mechanisms on %d (mechanism, category, count, k) cases' % len(cases),
                                     'ok': not mism})
@@ -254,7 +276,11 @@ def run(ctx):
         ctx.violation(out, {'part': part, 'case': line, 'impl_output': out, 'cmd': 'echo "%s" | build/C04/h%d' % (line, part)},
                       found_input=True, key=key)
     ctx.coverage['oracle'] = tot
-    ctx.coverage['input_distribution'] = {k: {'histories': v[0], 'failure_points': v[1], 'ops_with_growth': v[2]} for k, v in sorted(per_cfg.items())}
+    ctx.coverage['input_distribution'] = {
+        'per_config_and_category': {k: {'histories': v[0], 'failure_points': v[1], 'ops_with_growth': v[2]} for k, v in sorted(per_cfg.items())},
+        'per_config_measured': DIST,
+        'per_operation': {k: {'instances': v[0], 'exceptions_checked': v[1]} for k, v in sorted(OPS.items())},
+        'micro_cases_per_mechanism': MICRO}
     for p, line in cases[::max(1, len(cases) // 6)][:6]:
         ctx.add_sample(line)
     return ctx.finish(rule=RULE)
